@@ -26,6 +26,7 @@ func main() {
 	msg := flag.String("msg", "", "throw message")
 	note := flag.String("note", "", "note")
 	sig := flag.String("sig", "", "signature")
+	trig := flag.String("trig", "", "expected trigger registrations: callback:trigger:arg,arg;...")
 	flag.Parse()
 	c := px.ProgCase{Modules: map[string]string{}, Limits: sb.DefaultLimits(), Note: *note}
 	for i, f := range flag.Args() {
@@ -44,6 +45,16 @@ func main() {
 	for _, l := range strings.SplitAfter(w, "\n") {
 		if l != "" {
 			exp.Writes = append(exp.Writes, l)
+		}
+	}
+	if *trig != "" {
+		for _, t := range strings.Split(*trig, ";") {
+			p := strings.SplitN(t, ":", 3)
+			tc := hs.TriggerCall{Callback: p[0], Trigger: p[1]}
+			if len(p) > 2 && p[2] != "" {
+				tc.Args = strings.Split(p[2], ",")
+			}
+			exp.Triggers = append(exp.Triggers, tc)
 		}
 	}
 	c.Expect = exp
